@@ -458,7 +458,14 @@ func (p *parser) precedence(lhs Node, minP int) Node {
 			look = p.peek()
 		}
 
-		multiLine := p.hasNewLine(lhs.Position(), rhs.Position())
+		// Look for a line break between the end of the left operand and the right operand.
+		// The position of a binary left operand is its operator, counting from there would
+		// see the line breaks inside the left operand and spread them to this node.
+		lhsEnd := op.pos
+		for lhsEnd > lhs.Position() && isSpace(rune(p.text[lhsEnd-1])) {
+			lhsEnd--
+		}
+		multiLine := p.hasNewLine(lhsEnd, rhs.Position())
 		lhs = newBinary(p.position(op.pos), op.typ, lhs, rhs, multiLine, c)
 	}
 	return lhs
